@@ -116,7 +116,9 @@ class C10(Prop):
         if fn == "rollaxis":
             i = rng.randrange(n)
             start = rng.randint(0, n)
-            st = {"fn": "rollaxis", "axis": sim.key(rng, i) if rng.random() < 0.8 else ["pos", i], "start": start}
+            # (a negative start counts from the end, as in numpy.rollaxis)
+            st = {"fn": "rollaxis", "axis": sim.key(rng, i) if rng.random() < 0.8 else ["pos", i],
+                  "start": start - n if start < n and rng.random() < 0.25 else start}
             ax = sim.axes.pop(i)
             s2 = start - 1 if start > i else start
             sim.axes.insert(s2, ax)
